@@ -1,12 +1,206 @@
-(** C05 — Side effects happen once each, in Python's evaluation order.  (WIP: part 3 first.) *)
-From Coq Require Import List Bool String Arith.
-From V.C05 Require Import ModelEffects GenEffects ProofsEffects ModelOrderEdges ModelRun.
-Import ListNotations.
+(** C05 — Side effects happen once each, in Python's evaluation order
+    (decided on the compiler side: no emulator can run /repo's HUGR).
 
-(* Part 3.  Every operation the standard library emits (table read back from real compilations,
-   regenerated on every run) that reports a result, aborts, is a call, or changes the number of
-   live qubits is classified side-effecting by the REGENERATED predicate of core.py. *)
+    The chain from source to HUGR has three links; each has its own theorem here and its own tie
+    to /repo (props/C05/check.py):
+
+    1. CFG construction (cfg/builder.py), on the Python fragment and semantics of coq/C03:
+       [trace_calls_once_in_order]   a lift-free expression calls every call site exactly once, operands
+                                     left to right and arguments before the call, and ExprBuilder hands
+                                     it to the basic block unchanged (up to folding -c);
+       [trace_branch_partial]        for conditions of C03's fragment [frag_cond] (not / and / or /
+                                     conditional expressions over lift-free leaves) the built blocks
+                                     produce exactly Python's call trace (short-circuit operands only
+                                     when Python evaluates them, in order);
+       [trace_equal_refuted_*]       the FULL statement trace_equal (call events of run_cfg (build p) =
+                                     call events of exec_py p for every accepted p) is refuted by the
+                                     faithful builder model: chained comparison (middle operand called
+                                     twice), conditional expression / and-or / walrus lifted before an
+                                     earlier call operand.  Replayed on the real CFGBuilder on every run;
+                                     listed in props/C05/known_findings.json.
+       NOT proved: the statement level (if/while wiring) — C03's open gap — and the order_safe
+       fragment beyond frag_cond (searched only).
+    2. Order edges (compiler/core.py track_hugr_side_effects), model ModelOrderEdges.v:
+       [order_edges_total]           for every table and every sequence of add_node calls of one
+                                     tracking context, in every region the inserted order edges are exactly
+                                     Input -> c1 -> ... -> cn -> Output where c1..cn are the children of the
+                                     region below which a side-effecting node was added, each once, ordered
+                                     by their first side-effecting node;
+       [order_edges_chain_members], [order_edges_chain_nodup], [order_edges_region_in_parent_chain].
+       Hypotheses (decidable, evaluated on every real insertion log): well-formed table, building
+       discipline, one context per region.  [order_edges_discipline_needed] shows the discipline
+       cannot be dropped (the coded algorithm then produces a cycle).
+    3. Classification (compiler/core.py may_have_side_effect, REGENERATED):
+       [effect_classification]       every operation the std library emits for calls, result reports,
+                                     panic/exit, state results and operations changing the number of live
+                                     qubits is classified side-effecting.
+    Gap between 1 and 2 (not proved, compared on every run for straight-line programs): the
+    expression compiler adds the nodes of a simple statement in its evaluation order. *)
+From Coq Require Import ZArith List Bool Arith.
+From V.C03 Require Import PyAst PySem Cfg CfgSem Builder Frag Witness ProofsBase ProofsExpr ProofsBranch.
+From V.C05 Require Import ModelEffects GenEffects ProofsEffects ModelOrderEdges ModelRun
+  ProofsLists ProofsTable ProofsOrder ProofsChain ModelTrace ProofsTrace.
+Import ListNotations.
+Close Scope string_scope.
+Open Scope list_scope.
+
+(* ------------------------------------------------------------------ part 1: call traces *)
+
+Theorem trace_calls_once_in_order : forall oracle e bb s, lift_free e = true ->
+  exists e', build_expr e bb s = BOk (e', bb) s /\
+    forall st v st', eval oracle e' st = Done (v, st') ->
+      eval oracle e st = Done (v, st') /\ fns st' = fns st ++ calls e.
+Proof.
+  intros oracle e bb s H. exists (fold_neg e). split; [exact (build_lift_free e H bb s)|].
+  intros st v st' E. rewrite fold_neg_eval in E. split; [exact E|]. eapply calls_expr; eauto.
+Qed.
+Print Assumptions trace_calls_once_in_order.
+
+(* non-trivial instance: g(f(v0) + 1, (f(2), h())) calls f, f, h, g in this order *)
+Example trace_calls_example :
+  let e := ECall 2 (ECons (EBin BAdd (ECall 0 (ECons (v 0) ENil)) (i 1))
+                   (ECons (ETuple (ECons (ECall 0 (ECons (i 2) ENil)) (ECons (call0 1) ENil))) ENil)) in
+  lift_free e = true /\ calls e = [0; 0; 1; 2] /\
+  exists v st', eval test_oracle e st0 = Done (v, st') /\ fns st' = [0; 0; 1; 2].
+Proof. split; [reflexivity|]. split; [reflexivity|]. eexists. eexists. split; vm_compute; reflexivity. Qed.
+
+Theorem trace_branch_partial : forall oracle e, frag_cond e = true ->
+  forall bb t f g n s',
+  build_branch e bb t f (mkB g n) = BOk tt s' ->
+  opn g bb -> bb <> exit_idx -> exit_idx < length g -> t < length g -> f < length g -> t <> bb -> f <> bb ->
+  exists g', s' = mkB g' n /\
+    forall G, ext g' G -> forall st b st' ret, eval_truth oracle e st = Done (b, st') ->
+      exists c', steps oracle G (mkConfig bb (slen g bb) st ret) c' /\
+                 c_bb c' = (if b then t else f) /\ c_pos c' = 0 /\ snd (c_st c') = snd st'.
+Proof.
+  intros oracle e H bb t f g n s' B O1 O2 O3 O4 O5 O6 O7.
+  destruct (branch_ok oracle e H bb t f g n s' B O1 O2 O3 O4 O5 O6 O7) as (g' & E & _ & S).
+  exists g'. split; auto. intros G X st b st' ret EV.
+  eexists. split; [exact (S G X st b st' ret EV)|]. simpl. auto.
+Qed.
+Print Assumptions trace_branch_partial.
+
+(* if ((-5) < f0() < 9): ...     Python calls f0 once, the built CFG twice *)
+Theorem trace_equal_refuted_chain_dup : trace_refutes w_chain.
+Proof. apply trace_refutes_b_sound. vm_compute. reflexivity. Qed.
+Print Assumptions trace_equal_refuted_chain_dup.
+
+(* v1 = (f0() + (f2() if v3 else f0(1)))     Python: f0, f2; the built CFG: f2, f0 *)
+Theorem trace_equal_refuted_ifexp_order : trace_refutes w_ifexp.
+Proof. apply trace_refutes_b_sound. vm_compute. reflexivity. Qed.
+Print Assumptions trace_equal_refuted_ifexp_order.
+
+(* v1 = (f0() + (v3 and f1()))     Python: f0, f1; the built CFG: f1, f0 *)
+Theorem trace_equal_refuted_boolop_order : trace_refutes w_boolop.
+Proof. apply trace_refutes_b_sound. vm_compute. reflexivity. Qed.
+Print Assumptions trace_equal_refuted_boolop_order.
+
+(* v1 = (f0() + (v2 := f2()))     Python: f0, f2; the built CFG: f2, f0 *)
+Theorem trace_equal_refuted_walrus_order : trace_refutes w_walrus_order.
+Proof. apply trace_refutes_b_sound. vm_compute. reflexivity. Qed.
+Print Assumptions trace_equal_refuted_walrus_order.
+
+(* ------------------------------------------------------------------ part 2: order edges *)
+
+(* [track s0 l] = the model of one `with track_hugr_side_effects():` block that starts on the node
+   table / order edges of s0 and sees the add_node calls l.  [ctx_ok s0 W] = (wf, disciplined,
+   local_ok): table well-formed; in every region the side effects added below one child are
+   contiguous; regions that receive a side effect in this context had no order edge before and the
+   earlier edges point to existing nodes.  [expected_edges ns start p] is written from the table alone:
+   [] if no side-effecting node was added below p in this context, else
+   pairs (Input :: chain ++ [Output]) with chain = children of p holding such a node, each once, ordered
+   by their first such node. *)
+Theorem order_edges_total : forall s0 l W,
+  track s0 l = Some W ->
+  ctx_ok s0 W = (true, true, true) ->
+  forall p, is_region (nodes W) p = true -> region_edges s0 p = [] ->
+    region_edges W p = expected_edges (nodes W) (length (nodes s0)) p.
+Proof.
+  intros s0 l W T OK p R P0. unfold ctx_ok in OK.
+  assert (Hw : wf (nodes W) = true) by congruence.
+  assert (Hd : disciplined (nodes W) (length (nodes s0)) = true) by congruence.
+  assert (Hl : local_ok s0 W = true) by congruence.
+  pose proof (wf_sound _ Hw) as WFW. destruct WFW as (PL & WB & WC).
+  destruct (local_ok_sound _ _ PL Hl) as [HL HE].
+  apply (order_edges_chain s0 l W T (conj PL (conj WB WC)) HE (disciplined_sound _ _ PL Hd) HL p);
+    auto using is_region_linkable.
+Qed.
+Print Assumptions order_edges_total.
+
+Theorem order_edges_chain_nodup : forall ns start p, NoDup (ctx_chain ns start p).
+Proof. exact chain_nodup. Qed.
+Print Assumptions order_edges_chain_nodup.
+
+(* c is in the chain of p  <->  some side-effecting node m of the context lies at or below c, c is a
+   child of p, and no function definition lies between ([proj] walks the parents of m up to p) *)
+Theorem order_edges_chain_members : forall ns start p c,
+  In c (ctx_chain ns start p) <->
+  exists m, start <= m < start + (length ns - start) /\ is_eff ns m = true /\ proj (S m) ns p m = Some c.
+Proof. exact chain_members. Qed.
+Print Assumptions order_edges_chain_members.
+
+(* a region with a side effect inside is itself in the chain of its parent *)
+Theorem order_edges_region_in_parent_chain : forall s0 l W,
+  track s0 l = Some W -> ctx_ok s0 W = (true, true, true) ->
+  forall r p, ctx_chain (nodes W) (length (nodes s0)) r <> [] ->
+    kind_of (nodes W) r <> Some KFuncDefn -> parent_of (nodes W) r = Some p -> r <> 0 ->
+    In r (ctx_chain (nodes W) (length (nodes s0)) p).
+Proof.
+  intros s0 l W T OK. unfold ctx_ok in OK.
+  assert (Hw : wf (nodes W) = true) by congruence.
+  assert (Hd : disciplined (nodes W) (length (nodes s0)) = true) by congruence.
+  assert (Hl : local_ok s0 W = true) by congruence.
+  pose proof (wf_sound _ Hw) as WFW. destruct WFW as (PL & WB & WC).
+  destruct (local_ok_sound _ _ PL Hl) as [HL HE].
+  exact (region_in_parent_chain s0 l W T (conj PL (conj WB WC)) HE (disciplined_sound _ _ PL Hd) HL).
+Qed.
+Print Assumptions order_edges_region_in_parent_chain.
+
+(* the hypotheses are satisfiable on a non-trivial instance: a function whose block holds
+   result; Conditional{Case{panic}; Case{}}; call; and a second block with a call *)
+Definition ex_ins : list ins :=
+  [mkIns 0 KFuncDefn false; mkIns 1 KInput false; mkIns 1 KOutput false; mkIns 1 KCond false;
+   mkIns 4 KDf false; mkIns 5 KInput false; mkIns 5 KOutput false;
+   mkIns 5 KOp true;                                   (* 8: result *)
+   mkIns 5 KCond false; mkIns 9 KDf false; mkIns 10 KInput false; mkIns 10 KOutput false;
+   mkIns 9 KDf false; mkIns 13 KInput false; mkIns 13 KOutput false;
+   mkIns 10 KOp false; mkIns 10 KOp true;             (* 17: panic inside the first case *)
+   mkIns 5 KOp false; mkIns 5 KOp true;               (* 19: call *)
+   mkIns 4 KDf false; mkIns 20 KInput false; mkIns 20 KOutput false; mkIns 20 KOp true].
+Example order_edges_example :
+  exists W, track init ex_ins = Some W /\ ctx_ok init W = (true, true, true) /\
+    region_edges W 5 = [(6, 8); (8, 9); (9, 19); (19, 7)] /\
+    region_edges W 10 = [(11, 17); (17, 12)] /\ region_edges W 13 = [] /\
+    region_edges W 1 = [(2, 4); (4, 3)] /\ is_region (nodes W) 5 = true.
+Proof. eexists. repeat split; vm_compute; reflexivity. Qed.
+
+(* without the building discipline the coded algorithm links a Conditional twice: a side effect in
+   the first case, one in the enclosing block, one in the second case give 6 -> 9 -> 18 -> 9 *)
+Definition bad_ins : list ins :=
+  [mkIns 0 KFuncDefn false; mkIns 1 KInput false; mkIns 1 KOutput false; mkIns 1 KCond false;
+   mkIns 4 KDf false; mkIns 5 KInput false; mkIns 5 KOutput false;
+   mkIns 5 KOp false;
+   mkIns 5 KCond false; mkIns 9 KDf false; mkIns 10 KInput false; mkIns 10 KOutput false;
+   mkIns 9 KDf false; mkIns 13 KInput false; mkIns 13 KOutput false;
+   mkIns 10 KOp false; mkIns 10 KOp true;             (* 17 in the first case *)
+   mkIns 5 KOp true;                                  (* 18 in the block *)
+   mkIns 13 KOp true].                                (* 19 in the second case *)
+Theorem order_edges_discipline_needed :
+  exists W, track init bad_ins = Some W /\ ctx_ok init W = (true, false, true) /\
+    region_edges W 5 = [(6, 9); (9, 18); (18, 9); (9, 7)] /\
+    expected_edges (nodes W) 1 5 = [(6, 9); (9, 18); (18, 7)].
+Proof. eexists. repeat split; vm_compute; reflexivity. Qed.
+Print Assumptions order_edges_discipline_needed.
+
+(* ------------------------------------------------------------------ part 3: classification *)
+
+(* [std_rows] (GenEffects.v, regenerated): operations emitted by the std library, read back from real
+   compilations; [may_have_side_effect] (GenEffects.v, regenerated from core.py);
+   [must_be_ordered] (ModelEffects.v): the property's list. *)
 Theorem effect_classification : forall r, In r std_rows ->
   must_be_ordered r = true -> may_have_side_effect (r_op r) = true.
 Proof. exact effect_classification_all. Qed.
 Print Assumptions effect_classification.
+
+Theorem effect_classification_nontrivial : existsb must_be_ordered std_rows = true.
+Proof. exact rows_nontrivial. Qed.
